@@ -241,6 +241,17 @@ class Gen:
             return tuple(self.value(a, depth - 1) for a in t[1])
         if k == "dict":
             return {}
+        if k == "named" and " | " in t[1]:
+            # a PEP 604 union (`X | None`): pycardano's restorer does not understand it (no `__origin__`), the translator renders
+            # it as an unknown named type; values are generated from its alternatives so that the failure becomes concrete
+            names = {"None": ("none",), "int": ("int",), "bytes": ("bytes",), "str": ("text",), "bool": ("bool",),
+                     "fractions.Fraction": ("frac",), "Fraction": ("frac",)}
+            alts = [names.get(a.strip()) or (("cls", a.strip().split(".")[-1]) if a.strip().split(".")[-1] in SCH else None)
+                    for a in t[1].split(" | ")]
+            alts = [a for a in alts if a is not None]
+            if alts:
+                a = rng.choice([x for x in alts if x != ("none",)] or alts)
+                return self.value(a, depth)
         raise ValueError(t)
 
     def obj(self, name, depth):
